@@ -34,15 +34,15 @@ type Violation struct {
 }
 
 type Result struct {
-	Scenario    string       `json:"scenario"`
-	Depth       int          `json:"depth_completed"`
-	States      int          `json:"states"`
-	Transitions int64        `json:"transitions"`
-	Applies     int64        `json:"applies"`
+	Scenario    string              `json:"scenario"`
+	Depth       int                 `json:"depth_completed"`
+	States      int                 `json:"states"`
+	Transitions int64               `json:"transitions"`
+	Applies     int64               `json:"applies"`
 	Obs         map[string]struct{} `json:"-"`
-	Violations  []*Violation `json:"violations,omitempty"`
-	CapHit      string       `json:"cap_hit,omitempty"`
-	SamplePath  []string     `json:"sample_path,omitempty"`
+	Violations  []*Violation        `json:"violations,omitempty"`
+	CapHit      string              `json:"cap_hit,omitempty"`
+	SamplePath  []string            `json:"sample_path,omitempty"`
 }
 
 type Options struct {
@@ -55,6 +55,9 @@ type Options struct {
 	// class so that a frequent (e.g. already known) class cannot exhaust MaxViolations and
 	// hide a different one.
 	Classify func(what string) string
+	// Shard/NShards split one search over worker processes: the expansions at depth 2 are
+	// dealt round-robin (each worker keeps its own seen set: sound, partly redundant).
+	Shard, NShards int
 	// KeepGoing: expand states even after a violating transition was seen elsewhere.
 }
 
@@ -79,10 +82,17 @@ func Explore(sc Scenario, opt Options) *Result {
 	frontier := [][]int{{}}
 	nops := sc.NumOps()
 	cnt := 0
+	idx2 := -1
 	for depth := 1; depth <= opt.Depth && len(frontier) > 0; depth++ {
 		var next [][]int
 		for _, path := range frontier {
 			for op := 0; op < nops; op++ {
+				if depth == 2 && opt.NShards > 1 {
+					idx2++
+					if idx2%opt.NShards != opt.Shard {
+						continue
+					}
+				}
 				cnt++
 				if cnt%256 == 0 && !opt.Deadline.IsZero() && time.Now().After(opt.Deadline) {
 					res.CapHit = "deadline"
